@@ -1,5 +1,5 @@
 From Coq Require Import Extraction ExtrOcamlBasic.
 From RV Require Import Conc.Shared Conc.Sched Conc.CommitGap.
 Extraction Language OCaml.
-Extraction "../ocaml/gen/c16_model.ml" sstep srun sinit sinit_tables table_map lock_free
+Extraction "../ocaml/gen/c16_model.ml" sstep srun sinit sinit_tables sinit_full sblocked table_map lock_free
   ggrant gstart ginit faithful wf_init_b alloc_ok_b reach_ok_b.
